@@ -219,7 +219,7 @@ class Run:
             for kk, v in j.items():
                 if isinstance(v, int) and kk != "shard":
                     tot[kk] = tot.get(kk, 0) + v
-            for dm in re.finditer(r'"((?:RENDER|MODEL)-DRIFT) (.*)"', out):
+            for dm in re.finditer(r'"((?:RENDER|MODEL|PRINT)-DRIFT) (.*)"', out):
                 if len(tot.setdefault("drift_examples", [])) < 5:
                     try:
                         tot["drift_examples"].append(json.loads(json.loads('"' + dm.group(2) + '"')))
